@@ -111,10 +111,10 @@ Definition ont_init_notifications {K V : Type} (order : list (K * V)) : list (K 
 (** ** A7 (FINDING). native/ontfs/errors.go Errors.ToString -- the payload of the event pushed by
        AddErrorsEvent:  EncodeVarUint(len); for obj, err := range ObjectErrors { WriteVarBytes(obj); WriteVarBytes(err) }
     (base64 of the buffer; base64 is injective, omitted).  Lengths < 0xFD use the one-byte varuint. *)
-Definition var_bytes_small (b : bytes) : bytes := N.of_nat (length b) :: b.
+Definition var_bytes_small (b : bytes) : bytes := N.of_nat (List.length b) :: b.
 Definition ontfs_errors_to_string (order : list (bytes * bytes)) : bytes :=
   range_fold (fun buf kv => buf ++ var_bytes_small (fst kv) ++ var_bytes_small (snd kv)) order
-             [N.of_nat (length order)].
+             [N.of_nat (List.length order)].
 
 (** ** A8 (FINDING F4, owned by C15). vm/neovm/types/neovm_value.go circularRefAndDepthDetection, map branch:
        for _, v := range mp.Data { return v[1].circularRefAndDepthDetection(visited, depth+1) }
